@@ -73,6 +73,9 @@ def gen(rng, what, kind):
         if nout == 1 and rng.random() < 0.4:
             cfg["ic_return"] = "scalar"; cfg["w"] = rng.randint(1, 6) / 2
     elif what == "norm":
+        if kind == "statio" and nout >= 2 and rng.random() < 0.6:        # the integral is taken over the solution components only
+            lo = rng.randint(0, nout - 1); hi = rng.randint(lo + 1, nout)
+            cfg["sol"] = [lo, hi]
         cfg.update(samples=[[dy(rng) for _ in range(dim)] for _ in range(rng.randint(1, 5))], L=rng.choice([1.0, 2.0, 0.5, 3.0]))
     else:
         n = rng.randint(1, 5)
@@ -116,6 +119,8 @@ def case_term(cid, cfg, obs):
         xs = [r[1:] for r in cfg["batch"]]
         return f"IcPde {cnat(cid)} {cweight(cfg['w'])} {cnat(cfg['dim'])} {up} {clist(cfg['icpolys'], cpoly)} {cq(cfg['a'])} {R(xs)} {cq(obs)}"
     if what == "norm" and kind == "statio":
+        if cfg.get("sol"):
+            up = clist(cfg["upolys"][cfg["sol"][0]:cfg["sol"][1]], cpoly)
         return f"NormStatio {cnat(cid)} {cq(cfg['w'])} {cq(cfg['L'])} {cnat(cfg['dim'])} {up} {cq(cfg['a'])} {R(cfg['samples'])} {cq(obs)}"
     if what == "norm":
         return f"NormNonStatio {cnat(cid)} {cq(cfg['w'])} {cq(cfg['L'])} {cnat(cfg['dim'])} {up} {cq(cfg['a'])} {clist([r[0] for r in cfg['batch']], cq)} {R(cfg['samples'])} {cq(obs)}"
@@ -174,7 +179,7 @@ def generate(tier, seed, casedir, variant):
             cid += 1
     write_cases(casedir, "C05", "R_C05", variant, cases, chunk=100)
     return dict(meta=meta, oracle_violations=viol, evaluations=len(cases), distinct_nontrivial=len(nontrivial), samples=samples, distribution=dist,
-                rule="per (term, loss kind): random polynomial networks with 1..3 outputs whose output adds the equation parameter a, dyadic points, scalar and per-component weights, solution / observation slices, observed parameter rows present or not, initial-condition functions returning an array or a scalar, half of the initial-condition / normalisation cases next to an observation part whose observed parameter rows must not reach them, every loss evaluated twice on the same objects; non-trivial = the term is non-zero",
+                rule="per (term, loss kind): random polynomial networks with 1..3 outputs whose output adds the equation parameter a, dyadic points, scalar and per-component weights, solution / observation slices (the stationary normalisation term too is taken over the solution slice), observed parameter rows present or not, initial-condition functions returning an array or a scalar, half of the initial-condition / normalisation cases next to an observation part whose observed parameter rows must not reach them, every loss evaluated twice on the same objects; non-trivial = the term is non-zero",
                 oracle_checks=0)
 
 
